@@ -132,6 +132,15 @@ def r10_1(ctx) -> None:
     # (a) the key table: from_call is abstractly evaluated for every call shape
     #     args in {(), (A,), (A, B)} x kwds in {{}, {k: V}, {k: V, j: W}} x typed x "type(A) is a
     #     fast type", over symbolic tuples, and compared with functools._make_key's rule
+    def through_constant(e):
+        """a default spelled as the name of a module-level constant: the constant's value"""
+        if isinstance(e, ast.Name):
+            sym = u.module.symbols.get(e.id)
+            if sym is not None and sym[0] == "assign":
+                return sym[1]
+        return e
+
+    defaults = {k: through_constant(v) for k, v in defaults.items()}
     marker_default = defaults.get(params[5]) if len(params) > 5 else None
     unique = isinstance(marker_default, ast.Call) and norm(marker_default.func) == "object" and not marker_default.args
     ctx.count("key_clauses")
@@ -619,6 +628,23 @@ def _key_signature(lc: LruClass, m, depth: int = 0):
         pos = [norm(a) for a in c.args]
         kws = {k.arg: norm(k.value) for k in c.keywords}
         return (pos[:2], kws.get("typed") or (pos[2] if len(pos) > 2 else None))
+    # ... or from the module-level function from_call itself hands its (args, kwds, typed) to
+    pkg = lc.info.module.pkg
+    fc = pkg.unit("_lrucache.CallKey.from_call")
+    fparams = fc.param_names()
+    for d in own_nodes(fc.node):
+        if not (isinstance(d, ast.Call) and isinstance(d.func, ast.Name) and not d.keywords and len(fparams) >= 4):
+            continue
+        r = pkg.resolve_expr_global(fc.module, d.func)
+        names = [norm(a) for a in d.args]
+        if r.kind != "lib" or not all(p_ in names for p_ in fparams[1:4]):
+            continue
+        ia, ik, it_ = (names.index(p_) for p_ in fparams[1:4])
+        calls = [n for n in own_nodes(m.node) if isinstance(n, ast.Call) and isinstance(n.func, ast.Name)
+                 and pkg.resolve_expr_global(m.module, n.func).node is r.node and not n.keywords and len(n.args) > max(ia, ik, it_)]
+        if len(calls) == 1:
+            pos = [norm(a) for a in calls[0].args]
+            return ([pos[ia], pos[ik]], pos[it_])
     if depth == 0:
         for n in own_nodes(m.node):
             if isinstance(n, ast.Call) and isinstance(n.func, ast.Attribute) and norm(n.func.value) == "self":
